@@ -319,6 +319,13 @@ class XMLReader(object):
             root = ET.XML(string, self.parser)
         except ET.XMLSyntaxError as exc:
             raise ParserException(exc.msg)
+        except ValueError:
+            # lxml refuses unicode strings that carry an XML encoding declaration,
+            # like the content of any odML file; parse the encoded string instead.
+            try:
+                root = ET.XML(string.encode("utf-8"), self.parser)
+            except (ET.XMLSyntaxError, ValueError, AttributeError) as exc:
+                raise ParserException(str(exc))
 
         self._handle_version(root)
         return self.parse_element(root)
@@ -427,6 +434,10 @@ class XMLReader(object):
             self.error("Attribute not supported, ignoring '%s=%s' " % (k, val), root)
 
         for node in root:
+            # Skip processing instructions and the like, they are no odML elements.
+            if not isinstance(node.tag, str):
+                continue
+
             node.tag = node.tag.lower()
             self.is_valid_argument(node.tag, fmt, root, node)
             if node.tag in fmt.arguments_keys:
@@ -468,7 +479,11 @@ class XMLReader(object):
 
         if insert_children:
             for child in children:
-                obj.append(child)
+                try:
+                    obj.append(child)
+                except (KeyError, ValueError) as exc:
+                    # e.g. a second Section or Property of the same name
+                    self.error(str(exc), root)
 
         return obj
 
